@@ -246,12 +246,16 @@ Section Thm.
 
   Lemma parse_kinds :
     parse TransportErr = None /\ (forall b, parse (Http false b) = None) /\
-    (forall ok, parse (Http ok BadDoc) = None) /\
+    (forall ok why, parse (Http ok (BadDoc why)) = None) /\
     (forall es, parse (Http true (Doc es)) = Some (keep es)) /\
-    parse (Http true (Doc [])) = Some [] /\ (forall n, parse (Http true (Doc (repeat None n))) = Some []).
+    parse (Http true (Doc [])) = Some [] /\ (forall n, parse (Http true (Doc (repeat None n))) = Some []) /\
+    (forall r ks, parse r = Some ks <-> exists es, r = Http true (Doc es) /\ ks = keep es).
   Proof.
     repeat split; auto.
     - intros [|]; reflexivity.
     - intro n. cbn. f_equal. induction n; cbn; auto.
+    - destruct r as [|[|] [why|es]]; cbn; intro H; try discriminate.
+      inversion H. exists es; auto.
+    - intros (es & -> & ->). reflexivity.
   Qed.
 End Thm.
